@@ -509,3 +509,17 @@ package core
 //@   tag C13
 //@   insertonly [C13] allProjectProperties
 //@   unclaimed kind!=insert-only only the insert-only discipline of the table is claimed here; the loops over the raw Path declarations and the schema maps are not under a functional contract
+
+// ---------------------------------------------------------------- Path bodies given by reference (C01, C13)
+// following a type reference never leaves the walk on a schema without JSight content (a regex or any user type): F23
+//@ func (*JApiCore).ExpandRawPathVariableShortcuts
+//@   tag C01 C13
+//@   requires core != nil && core.catalog != nil && core.catalog.UserTypes != nil && core.catalog.UserTypes.mx == 0
+//@   requires forall k :: 0 <= k && k < len(core.rawPathVariables) ==> core.rawPathVariables[k].schema.ContentJSight != nil
+//@   unclaimed #requires@checkPathSchema the flat-object rules of the Path body are not under contract
+//@   unclaimed #requires@KeywordError the Path directive kept with each raw declaration is not known to be well-formed here
+//@   unclaimed #nil-deref@ut the values stored in the user-type table are not known to be non-nil here
+//@   loop 1 invariant 0 <= i && i <= len(core.rawPathVariables) && core.catalog != nil && core.catalog.UserTypes != nil && core.catalog.UserTypes.mx == 0
+//@   loop 1 invariant forall k :: i <= k && k < len(core.rawPathVariables) ==> core.rawPathVariables[k].schema.ContentJSight != nil
+//@   loop 2 invariant 0 <= i && i < len(core.rawPathVariables) && core.rawPathVariables[i].schema.ContentJSight != nil && core.catalog != nil && core.catalog.UserTypes != nil && core.catalog.UserTypes.mx == 0
+//@   loop 2 invariant forall k :: i < k && k < len(core.rawPathVariables) ==> core.rawPathVariables[k].schema.ContentJSight != nil
